@@ -2,7 +2,7 @@ SPECIFICATION Spec
 CONSTANTS
   MaxRoots = 2
   MaxFiles = 2
-  FileFaults = {"E", "P", "N", "M", "A", "S", "W", "C", "R"}
+  FileFaults = {"E", "P", "N", "M", "A", "S", "W", "C", "R", "Z"}
   RootFaults = {"badtoml", "vermismatch", "missing", "dir"}
   Combos <- MCCombos
   GenMode = "all"
